@@ -83,7 +83,13 @@ fn dump_store(pie: &Pie<Trk>) -> Value {
       ress.push(json!({"r":r,"rank":n.rank,"inc":inc}));
     }
   }
-  json!({"tasks":tasks,"ress":ress})
+  // every node in ascending topological rank: task t as t, resource r as 100 + r
+  let mut order: Vec<(usize, i64)> = Vec::new();
+  for t in tasks.iter() { order.push((t["rank"].as_u64().unwrap() as usize, t["t"].as_i64().unwrap())); }
+  for r in ress.iter() { order.push((r["rank"].as_u64().unwrap() as usize, 100 + r["r"].as_i64().unwrap())); }
+  order.sort();
+  let ranks: Vec<i64> = order.into_iter().map(|(_, c)| c).collect();
+  json!({"tasks":tasks,"ress":ress,"ranks":ranks})
 }
 
 fn with_task_key<R>(scn: &Scenario, t: i64, f: impl FnOnce(&dyn KeyObj) -> R) -> R {
@@ -194,7 +200,8 @@ fn run_session(pie: &mut Pie<Trk>, scn: &Scenario, acts: &[Act], probe: bool) {
   let dump = dump_store(pie);
   let (d, c) = world::with(|w| (w.digest, w.count));
   let evt = dump_event_tracker(&pie.tracker().1 .0, scn);
-  emit(json!({"ev":"sess_end","errs":nerr,"res":res,"dump":dump,"evt":evt,
+  let ranks = dump["ranks"].clone();
+  emit(json!({"ev":"sess_end","errs":nerr,"res":res,"ranks":ranks,"dump":dump,"evt":evt,
     "trk_same": d[0] == d[1] && c[0] == c[1], "trk_n1": c[0], "trk_n2": c[1]}));
 }
 
